@@ -31,7 +31,7 @@ PROPS = {
     'C05': dict(
         props_file='Props/C05.v',
         components=['c05'],
-        comp_names={102: 'commitment scripts on a real cluster vs the composed cluster model with commitment (Model/ClusterCommit.v)', 5: 'commitment (newCommitment/match/setConfiguration/getCommitIndex via tag-exported wrapper)', 8: 'leader sequences (setupLeaderState, dispatchLogs, match reports, leader-loop commit: the current-term rule)'},
+        comp_names={104: 'scripts with snapshot transfer (real replicateTo -> sendLatestSnapshot, real installSnapshot handler) on a real cluster vs Model/ClusterSnap.v', 102: 'commitment scripts on a real cluster vs the composed cluster model with commitment (Model/ClusterCommit.v)', 5: 'commitment (newCommitment/match/setConfiguration/getCommitIndex via tag-exported wrapper)', 8: 'leader sequences (setupLeaderState, dispatchLogs, match reports, leader-loop commit: the current-term rule)'},
         rule='(0) composed-model tie (component 102): 2-5 real servers (all goroutines, 1h timers, pre-vote off, elections scripted as in C01 component 1); a real leader stores entries through Apply; the REAL replicateTo(follower, lastIndex) is run by the script in its own goroutine: it builds the request from the follower\'s real nextIndex and blocks in the transport; any request built so far is executed by its target\'s real handler at any later time (repeatedly, out of order, after the sender was deposed); the follower\'s real answer to the blocked request is returned to replicateTo, whose REAL code processes it (handleStaleTerm / updateLastAppended -> commitment.match / nextIndex back-off) or the call is made to fail; the REAL leader loop then advances the commit index and the REAL FSM goroutines apply; after each op every server\'s role/term/vote/last index/COMMIT INDEX/APPLIED INDEX/FSM CONTENT/FULL LOG, every leader\'s nextIndex per follower and the newest request are diffed against Model/ClusterCommit.v cstep; monitors on the real state after every op: FSM histories prefix-equal across servers, committed entries equal across servers, every leader of a term >= a server\'s term holds what that server knows committed, applied <= commit <= last index (100 scripts of 50-120 ops quick, 1500 thorough); tables: every configuration of n<=3 (quick) / n<=4 (thorough) servers x suffrage in {Voter,Nonvoter,Staging} x match in 0..3 x startIndex in 0..3 '
              '(n=4/5 sampled), each followed by two setConfiguration calls; plus random op sequences (<=30 ops, <=9 servers, occasionally ill-formed '
              'duplicate ids). Compared: commit index after every op. Non-trivial = the commit index advanced at least once',
@@ -59,7 +59,7 @@ PROPS = {
     'C04': dict(
         props_file='Props/C04.v',
         components=['c04'],
-        comp_names={103: 'commitment scripts with takeSnapshot + compaction on a real cluster vs the composed cluster model (Model/ClusterCommit.v run_clustersnap)', 6: 'node sequence (appendEntries through processRPC on a stepper node)',
+        comp_names={104: 'scripts with snapshot transfer (real replicateTo -> sendLatestSnapshot, real installSnapshot handler) on a real cluster vs Model/ClusterSnap.v', 103: 'commitment scripts with takeSnapshot + compaction on a real cluster vs the composed cluster model (Model/ClusterCommit.v run_clustersnap)', 6: 'node sequence (appendEntries through processRPC on a stepper node)',
                     101: 'replication scripts on a real cluster vs the composed cluster model with logs (Model/ClusterLog.v)'},
         rule='(0) composed-model tie (component 101): 2-5 real servers (all goroutines, 1h timers; elections scripted as in C01 component 1) where a real leader stores entries through Apply, '
              'the REAL setupAppendEntries builds requests for arbitrary (nextIndex, lastIndex), heartbeats are built as replication.go does, and every request built so far can be executed by its '
@@ -176,7 +176,7 @@ PROPS = {
     'C02': dict(
         props_file='Props/C02.v',
         components=['c02'],
-        comp_names={102: 'commitment scripts on a real cluster vs the composed cluster model with commitment (Model/ClusterCommit.v)', 6: 'node sequences (every FSM call is in the compared trace)', 1001: 'cluster churn histories', 1007: 'stale tail + snapshot + leader change + new follower', 1009: 'growing a single-voter cluster', 1013: 'Figure 8 on five servers (old-term entries on a majority, nothing of the new term; then overwritten)'},
+        comp_names={104: 'scripts with snapshot transfer (real replicateTo -> sendLatestSnapshot, real installSnapshot handler) on a real cluster vs Model/ClusterSnap.v', 102: 'commitment scripts on a real cluster vs the composed cluster model with commitment (Model/ClusterCommit.v)', 6: 'node sequences (every FSM call is in the compared trace)', 1001: 'cluster churn histories', 1007: 'stale tail + snapshot + leader change + new follower', 1009: 'growing a single-voter cluster', 1013: 'Figure 8 on five servers (old-term entries on a majority, nothing of the new term; then overwritten)'},
         rule='(0) composed-model tie (component 102): 2-5 real servers (all goroutines, 1h timers, pre-vote off, elections scripted as in C01 component 1); a real leader stores entries through Apply; the REAL replicateTo(follower, lastIndex) is run by the script in its own goroutine: it builds the request from the follower\'s real nextIndex and blocks in the transport; any request built so far is executed by its target\'s real handler at any later time (repeatedly, out of order, after the sender was deposed); the follower\'s real answer to the blocked request is returned to replicateTo, whose REAL code processes it (handleStaleTerm / updateLastAppended -> commitment.match / nextIndex back-off) or the call is made to fail; the REAL leader loop then advances the commit index and the REAL FSM goroutines apply; after each op every server\'s role/term/vote/last index/COMMIT INDEX/APPLIED INDEX/FSM CONTENT/FULL LOG, every leader\'s nextIndex per follower and the newest request are diffed against Model/ClusterCommit.v cstep; monitors on the real state after every op: FSM histories prefix-equal across servers, committed entries equal across servers, every leader of a term >= a server\'s term holds what that server knows committed, applied <= commit <= last index (100 scripts of 50-120 ops quick, 1500 thorough); (i) the C10 crash/restart node sequences (FSM Apply/Restore/StoreConfiguration calls are part of the trace diffed against the model); (ii) real clusters: churn mix (partitions, crash cuts, restarts, snapshots, '
              'transfers, duplicated/lost responses) the snapshot + leader-change family with per-server TrailingLogs reload and a brand-new follower, and the Figure-8 family (content filter on one link: a follower is given only the old-term entries); monitors on every FSM call of every server: same entry at an index everywhere, '
              'increasing without gap or repeat per instance, applied => durably on a voter majority at that instant. Non-trivial = history with a leader and an ack / sequence with crash cut',
@@ -186,7 +186,7 @@ PROPS = {
     'C12': dict(
         props_file='Props/C12.v',
         components=['c12'],
-        comp_names={1011: 'takeSnapshot racing further applies (log contiguous above the snapshot)', 12: 'leader-side catch-up: real replicateTo on a stepper leader against a scripted follower', 1201: 'both sides real: a stepper leader and a stepper follower joined by a transport, one replicateTo call, vs the composed model (Converge.v)', 6: 'InstallSnapshot then AppendEntries on followers in enumerated stale/divergent/compacted states', 1007: 'stale tail + snapshot + leader change', 1008: 'convergence after a fault period (real timers)'},
+        comp_names={104: 'scripts with snapshot transfer (real replicateTo -> sendLatestSnapshot, real installSnapshot handler) on a real cluster vs Model/ClusterSnap.v', 1011: 'takeSnapshot racing further applies (log contiguous above the snapshot)', 12: 'leader-side catch-up: real replicateTo on a stepper leader against a scripted follower', 1201: 'both sides real: a stepper leader and a stepper follower joined by a transport, one replicateTo call, vs the composed model (Converge.v)', 6: 'InstallSnapshot then AppendEntries on followers in enumerated stale/divergent/compacted states', 1007: 'stale tail + snapshot + leader change', 1008: 'convergence after a fault period (real timers)'},
         rule='(i) follower log length 1..6 (stale term-2 tail or agreeing with the leader), snapshot index 2..7, both store kinds, TrailingLogs {0,1,100}: InstallSnapshot, the AppendEntries that follows it, a heartbeat, restart '
              '(432 cases, exhaustive in both tiers), diffed against the model; monitor: after an installed snapshot the following AppendEntries is accepted. (ii) real clusters: family 7; family 8 = 200-500 ms of partitions/stops/snapshots '
              'with 60 ms timers, then quiet: one leader, a write accepted and every member caught up within 20 election timeouts + 0.5 s, with an InstallSnapshot-repeat counter. Non-trivial: every case',
@@ -196,7 +196,7 @@ PROPS = {
     'C03': dict(
         props_file='Props/C03.v',
         components=['c03'],
-        comp_names={102: 'commitment scripts on a real cluster vs the composed cluster model with commitment (Model/ClusterCommit.v)', 8: 'leader sequences', 1001: 'cluster churn histories', 1002: 'election races'},
+        comp_names={104: 'scripts with snapshot transfer (real replicateTo -> sendLatestSnapshot, real installSnapshot handler) on a real cluster vs Model/ClusterSnap.v', 102: 'commitment scripts on a real cluster vs the composed cluster model with commitment (Model/ClusterCommit.v)', 8: 'leader sequences', 1001: 'cluster churn histories', 1002: 'election races'},
         rule='(0) composed-model tie (component 102): 2-5 real servers (all goroutines, 1h timers, pre-vote off, elections scripted as in C01 component 1); a real leader stores entries through Apply; the REAL replicateTo(follower, lastIndex) is run by the script in its own goroutine: it builds the request from the follower\'s real nextIndex and blocks in the transport; any request built so far is executed by its target\'s real handler at any later time (repeatedly, out of order, after the sender was deposed); the follower\'s real answer to the blocked request is returned to replicateTo, whose REAL code processes it (handleStaleTerm / updateLastAppended -> commitment.match / nextIndex back-off) or the call is made to fail; the REAL leader loop then advances the commit index and the REAL FSM goroutines apply; after each op every server\'s role/term/vote/last index/COMMIT INDEX/APPLIED INDEX/FSM CONTENT/FULL LOG, every leader\'s nextIndex per follower and the newest request are diffed against Model/ClusterCommit.v cstep; monitors on the real state after every op: FSM histories prefix-equal across servers, committed entries equal across servers, every leader of a term >= a server\'s term holds what that server knows committed, applied <= commit <= last index (100 scripts of 50-120 ops quick, 1500 thorough); leader sequences: a real server booted from an image, put in Leader state (setState + setupLeaderState, no replication goroutines) and driven from one goroutine through dispatchLogs (commands, barriers, no-ops, batches of 1-3, a failing StoreLogs), commitment.match reports of voters and non-voters, the commit processing of leaderLoop with the real FSM goroutine (plain and batching FSM), appendConfigurationEntry + the gate, restoreUserSnapshot (index below/at/above the log, wrong size), verifyLeader; after every op: resolved futures (index, error, response), ordered store/FSM trace and the full node + commitment state are diffed against the model (1500 random sequences in quick, 30000 in thorough); ' + 'cluster histories: churn and election races; monitors: every new leader holds every acknowledged/applied entry, an applied entry a server holds is never replaced or deleted, commit index never on an old-term entry without an own-term entry. Non-trivial = sequence with a commit step / history with leader and ack',
         assumptions=['cluster histories are sampled schedules'],
         timeout={'quick': 900, 'thorough': 7200},
